@@ -77,7 +77,12 @@ def check(case):
         sel = store.specs()
         V, dg = compare(store, sel, reltypes)
         V2, dg2 = compare(store, sel, reltypes, default_mode=True)
-        return {'v': V + V2, 'd': dg + dg2, 'nt': True}
+        V3 = []
+        for lx in wn.lexicons():
+            ok, err = runner.guarded(lx.describe)       # the summary of what was added (counts per part of speech)
+            if not ok:
+                V3.append((f'describe:raises:{err[0]}', f'{lx.specifier()}.describe() raised {err}'))
+        return {'v': V + V2 + V3, 'd': dg + dg2, 'nt': True}
     finally:
         wn._add.BATCH_SIZE = 1000
         env.drop_db(env.db_path().parent)
@@ -92,6 +97,8 @@ def space(tier, seed):
         if v != '1.0':
             cases += docgen.ext_feature_space(v, 1)
             cases += docgen.ext_feature_space(v, 1, flags=('annot',))
+            # two versions of the extension installed together (same form ids on the base entry)
+            cases += [c for c in docgen.ext_feature_space(v, 1, flags=('annot', 'twinext')) if not c['delta'] or v == '1.3']
         cases += docgen.multi_space(v)
         # optional-by-DTD attributes the code has been seen to assume (Synset@partOfSpeech,
         # lexicon-level SyntacticBehaviour@id)
